@@ -549,6 +549,9 @@ class Engine:
             if v.kind == "msgheap":
                 from .monitor import HeapV
                 return HeapV(self, v, heap)
+            if v.kind == "dict" and "keys" in heap[v.base]:
+                from .dicts import DictV
+                return DictV(self, v, heap)
             return ObjV(self, v, heap)
         if isinstance(v, Opq):
             return v.t
@@ -801,6 +804,12 @@ class Engine:
             va, vb = self.as_vec(a, st), self.as_vec(b, st)
             n = va.n if va.n is not None else vb.n
             return Vec(n, lambda i: self.compare(op, va.fn(i), vb.fn(i), st))
+        if isinstance(op, (ast.Eq, ast.NotEq)):
+            for x, y in ((a, b), (b, a)):
+                if isinstance(x, Ref) and x.kind == "dict" and isinstance(y, dict) and not y and "keys" in st.heap[x.base]:
+                    from . import dicts
+                    r = dicts.is_empty(st.heap[x.base])       # d == {}
+                    return z3.Not(r) if isinstance(op, ast.NotEq) else r
         if isinstance(op, (ast.Is, ast.IsNot, ast.Eq, ast.NotEq)):
             r = self.equal(a, b)
             return z3.Not(r) if isinstance(op, (ast.IsNot, ast.NotEq)) else r
@@ -826,6 +835,7 @@ class Engine:
             return z3.And(*[self.equal(x, y) for x, y in zip(a, b)]) if a else z3.BoolVal(True)
         if isinstance(a, dict) and isinstance(b, dict) and not a and not b:
             return z3.BoolVal(True)
+
         num_a = isinstance(a, (int, bool)) or (_is_z3(a) and (z3.is_arith(a) or z3.is_bool(a)))
         num_b = isinstance(b, (int, bool)) or (_is_z3(b) and (z3.is_arith(b) or z3.is_bool(b)))
         if num_a and num_b:
@@ -1039,6 +1049,12 @@ class Engine:
         raise Unsupported(f"slice of {type(base).__name__}")
 
     def index(self, base, idx, st, fr, k, node):
+        if type(base).__name__ == "ItemList":
+            i = self.to_int(idx)
+            n = base.cell["n"]
+            ii = self.norm_index(i, n)
+            self.oblige("safety", "list index in range", st, z3.And(0 <= ii, ii < n), node)
+            return k(base.elem(self, ii), st)
         if isinstance(base, Arr) and isinstance(idx, (Vec,)) and base.field is None:
             return self.mask_index(base, idx, st, k, node)
         if isinstance(base, Arr):
@@ -1458,6 +1474,10 @@ class Engine:
                     st = st.assume(gi(d, self.to_v(key)) == self.to_v(val))
                 v = Opq(d)
             want_l = (self.cur.local_sorts if self.cur else {}).get(tgt.id)
+            if type(want_l).__name__ == "DictT" and isinstance(v, dict) and not v:
+                # ``x = {}`` for a local declared as a symbolic dict: allocate an empty heap dict
+                from . import dicts
+                v, st = dicts.empty(self, tgt.id, want_l, st)
             if isinstance(want_l, ListT) and isinstance(v, list) and not v:
                 # ``x = []`` for a local declared as a symbolic list: allocate an empty heap list
                 from .contract import make_symbolic
@@ -1576,6 +1596,9 @@ class Engine:
             return k(st.with_cell(base.base, base.field,
                                   sto2(arr, base.idx, base.lo + ii, self.num(v, arr.range().range()))))
         if isinstance(base, Ref) and base.kind == "dict":
+            if "keys" in st.heap[base.base]:
+                from . import dicts
+                return k(dicts.store(self, base, idx, v, st))
             return k(self.dict_store(base, idx, v, st))
         if isinstance(base, Ref) and base.kind == "list":
             cell = st.heap[base.base]
